@@ -1,4 +1,4 @@
-import MxModel.Edit.Machine
+import MxModel.Edit.MachineRename
 import MxModel.Exec.Expr
 import MxModel.Generated.Tables
 /-! Line-protocol driver for the combined machine (`MxModel/Edit/Machine.lean`): structural edits and
@@ -181,6 +181,20 @@ def stepLine (wd : World) (line : String) : World × String :=
     let acc := (wd.w.sm.apply kw (.delGlobal x)).isSome
     let cov := stepCoveredG P wd.w (.delGlobal x)
     ({ wd with w := stepG P wd.w (.delGlobal x) }, (if acc then "acc" else "rej") ++ (if cov then "" else " UNCOVERED"))
+  | ["renamespace", p, new] =>
+    -- `space.rename(new)`: `stepR` (declared slots keep their spelling: `Tabs.spell`)
+    let acc := match wd.w.sm.renameSpace kw (pathOf p) new with
+      | .ok _ => true
+      | .error _ => false
+    let cov := stepCoveredR P wd.w (.renameSpace (pathOf p) new)
+    ({ wd with w := stepR P wd.w (.renameSpace (pathOf p) new) },
+      (if acc then "acc" else "rej") ++ (if cov then "" else " UNCOVERED"))
+  | ["nodes"] =>
+    -- the cells that have a node in the trace graph (`space.cells`, sorted, without repetition)
+    (wd, ",".intercalate (sorted ((wd.w.ex.gn.map (fun g =>
+      match wd.w.tabs.cellOf g.cell with
+      | some (q, n) => s!"{showPath q}.{n}"
+      | none => s!"?{g.cell}")).eraseDups)))
   | ["rval", v, i] =>
     match v.toNat?, i.toInt? with
     | some v, some i => ({ wd with rvals := (v, i) :: wd.rvals.filter (·.1 != v) }, "ok")
